@@ -54,7 +54,9 @@ Definition witness_prog : chunk :=
    [CBuiltin BPut [EList [EStr [73%N]; EVar 0%N]] []];
    [CVar [(false, 10%N)] (Some [EVar 0%N])];
    [CSet [((false, 0%N), [EStr [48%N]]); ((false, 0%N), [EStr [49%N]])] [EStr [120%N]; EStr [121%N]]];
-   [CBuiltin BPut [EList [EStr [80%N]; EStr [48%N]; EVar 0%N; EList [EVar 10%N]]] []]].
+   [CBuiltin BPut [EList [EStr [80%N]; EStr [48%N]; EVar 0%N; EList [EVar 10%N]]] []];
+   [CBuiltin BPut [EList [EStr [67%N]; EStr [48%N];
+      EList [ECapture [[CBuiltin BCount [EVar 10%N] []]]; EList [ECapture [[CBuiltin BAll [EVar 10%N] []]]]]]] []]].
 Definition witness_steps : list step :=
   [SMulti [VStr [48%N]] (VStr [120%N]) [VStr [49%N]] (VStr [121%N])].
 
@@ -62,7 +64,8 @@ Theorem C14_multi_lvalue_base_is_command_start :
   let one_two := VList [VStr [49%N]; VStr [50%N]] in
   let one_y := VList [VStr [49%N]; VStr [121%N]] in
   outputs (run_program default_fuel true witness_prog)
-  = [VList [VStr [73%N]; one_two]; VList [VStr [80%N]; VStr [48%N]; one_y; VList [one_two]]]
+  = [VList [VStr [73%N]; one_two]; VList [VStr [80%N]; VStr [48%N]; one_y; VList [one_two]];
+     VList [VStr [67%N]; VStr [48%N]; VList [VNum 2; one_two]]]
   /\ nested_assoc one_two [VStr [49%N]] (VStr [121%N]) = POk one_y
   /\ check_C14 witness_steps (outputs (run_program default_fuel true witness_prog)) = true.
 Proof. vm_compute. repeat split; reflexivity. Qed.
@@ -87,7 +90,8 @@ Proof. vm_compute. reflexivity. Qed.
 Example C14_example_multi_both_readings :
   let one_two := VList [VStr [49%N]; VStr [50%N]] in
   let log x := [VList [VStr [73%N]; one_two];
-                VList [VStr [80%N]; VStr [48%N]; x; VList [one_two]]] in
+                VList [VStr [80%N]; VStr [48%N]; x; VList [one_two]];
+                VList [VStr [67%N]; VStr [48%N]; VList [VNum 2; one_two]]] in
   check_C14 witness_steps (log (VList [VStr [120%N]; VStr [121%N]])) = true
   /\ check_C14 witness_steps (log (VList [VStr [49%N]; VStr [121%N]])) = true
   /\ check_C14 witness_steps (log (VList [VStr [120%N]; VStr [50%N]])) = false.
@@ -98,6 +102,9 @@ Example C14_example_alias_rejected :
   let one := VList [VStr [49%N]] in
   let two := VList [VStr [50%N]] in
   let st := [SSet [VStr [48%N]] (VStr [50%N])] in
-  check_C14 st [VList [VStr [73%N]; one]; VList [VStr [80%N]; VStr [48%N]; two; VList [one]]] = true
-  /\ check_C14 st [VList [VStr [73%N]; one]; VList [VStr [80%N]; VStr [48%N]; two; VList [two]]] = false.
-Proof. vm_compute. split; reflexivity. Qed.
+  let c n := VList [VStr [67%N]; VStr [48%N]; VList [VNum n; one]] in
+  check_C14 st [VList [VStr [73%N]; one]; VList [VStr [80%N]; VStr [48%N]; two; VList [one]]; c 1%Z] = true
+  /\ check_C14 st [VList [VStr [73%N]; one]; VList [VStr [80%N]; VStr [48%N]; two; VList [two]]; c 1%Z] = false
+  (* an alias whose count changed (an entry appeared or vanished) is rejected *)
+  /\ check_C14 st [VList [VStr [73%N]; one]; VList [VStr [80%N]; VStr [48%N]; two; VList [one]]; c 2%Z] = false.
+Proof. vm_compute. repeat split; reflexivity. Qed.
